@@ -80,6 +80,12 @@ def there_follows(ctx):
         over_s = seq in ("0..len(chars(a2))",) or re.match(r"^min\((a1\.pattern\[a1\.idx\.\.add\(a1\.idx, %s\)\]; 0\.\.len\(chars\(a2\)\)|0\.\.len\(chars\(a2\)\); a1\.pattern\[a1\.idx\.\.add\(a1\.idx, %s\)\])\)$" % (LEN, LEN), seq) is not None
         _rec(d, "runs-over-s", over_s, "the loop must run over all characters of s from the first; it runs over %s" % seq, loc)
         cmps = [g for g in gs if re.match(r"^!?eq\(", g)]
+        INR = "lt(add(a1.idx, k), a1.len)"
+        if ("!" + INR) in gs:
+            # the pattern runs out in this turn (bounds tested inside the loop, position counted up by hand)
+            _rec(d, "too-short", r == "false" and p.end == "return" and not cmps, "when the pattern ends before s does there_follows must answer false; found %s" % r, loc)
+            checked_in_loop = True
+            continue
         if m and m.group(2) == "None":
             _rec(d, "true-after-all-equal", r == "true" and p.end == "return" and not cmps, "when s is used up without a mismatch the answer must be true; found %s" % r, loc)
             continue
@@ -91,7 +97,7 @@ def there_follows(ctx):
         direct = g1 in ("eq(%s, %s)" % (SK, PK), "eq(%s, %s)" % (PK, SK))
         opt = re.match(r"^eq\((?:Option::Some\{0: (?:ref\()?%s\)?\}, within\(%s, <0\.\.len\(a1\.pattern\) skip a1\.idx>\)|within\(%s, <0\.\.len\(a1\.pattern\) skip a1\.idx>\), Option::Some\{0: (?:ref\()?%s\)?\})\)$" % (re.escape(SK), re.escape(PK), re.escape(PK), re.escape(SK)), g1) is not None
         _rec(d, "compares-same-index", direct or opt, "turn k must compare the k-th character of s with pattern[idx+k]; found %s" % g[:200], loc)
-        if opt:
+        if opt or INR in gs:
             checked_in_loop = True
         if g.startswith("!"):
             _rec(d, "false-on-mismatch", r == "false" and p.end == "return", "a mismatch must answer false; found %s (%s)" % (r, p.end), loc)
@@ -506,14 +512,16 @@ def seq_flatten(ctx):
         A = "a1 as Sequence.0.operations" if s1 else "a1"
         B = "a2 as Sequence.0.operations" if s2 else "a2"
         r0 = strip_ver(render(p.ret))
-        if s1 and s2:
-            good = seq == [A, B]
-        elif s1:
-            good = seq == [B] and ("Sequence::new(%s" % A) in r0.replace("′", "")
-        elif s2:
-            good = seq == [A, B]
+        # what the new sequence holds, in order: the vector it is built from may start out as o1's own operations
+        # (appended to in place) or empty; then everything appended to it
+        r1 = r0.replace("′", "")
+        if "Sequence::new(vec![a1, a2])" in r1 and not seq:
+            content = ["a1", "a2"]
+        elif ("Sequence::new(%s" % A) in r1 and s1:
+            content = [A] + seq
         else:
-            good = "Sequence::new(vec![a1, a2])" in r0
+            content = seq
+        good = content == [A, B]
         _rec(d, key, good and "Operation::Sequence{0: Sequence::new(" in r0, "make_sequence arm (%s): the result must be ops(o1) ++ ops(o2); appended %s, result %s" % (key, seq, r0[:100]), loc)
     for k in ("arm|Sequence,Sequence", "arm|Sequence,other", "arm|other,Sequence", "arm|other,other"):
         if k not in d:
